@@ -37,6 +37,8 @@ func runC03(c *Ctx) {
 	runC03Ready(c)
 	runC03Clean(c)
 	runC03Tree(c)
+	runC03ReadyFilter(c)
+	runC13LookupsFirst(c, "O10", "C03")
 	stmtAlloc := p.Func(pkgFramework, "Statement", "Allocate")
 	stmtPipe := p.Func(pkgFramework, "Statement", "Pipeline")
 	checkpoint := c.Anchor("O1", pkgFramework, "Statement", "Checkpoint")
@@ -674,4 +676,53 @@ func runC03Retry(c *Ctx, run *ghostRun, root, stmtAlloc, stmtPipe, rollback *ssa
 		}
 	}
 	c.Floor("O9", "MPT attempts that can fail dirty", n, 2)
+}
+
+// runC03ReadyFilter (O11): the allocate action asks for the unready workloads to be filtered out
+// (JobsOrderInitOptions.FilterUnready). That filter is the only thing that guarantees GetTasksToAllocate can pick
+// enough pods to reach every pod set's minimum: for a workload with fewer alive pods than its minimum it silently
+// returns fewer, AllocateJob places them and the gang runs below its minimum. Decided: with FilterUnready set, a
+// workload reaches PushJob only behind IsReadyForScheduling() == true, on every path.
+func runC03ReadyFilter(c *Ctx) {
+	f := c.Anchor("O11", "pkg/scheduler/actions/utils", "JobsOrderByQueues", "InitializeWithJobs")
+	if f == nil {
+		return
+	}
+	n := 0
+	for _, in := range instrsIn(f, func(in ssa.Instruction) bool {
+		cc, ok := in.(ssa.CallInstruction)
+		return ok && calleeOf(cc) != nil && calleeOf(cc).Name() == "PushJob"
+	}) {
+		n++
+		// no path from an iteration's start to the push on which FilterUnready is set and the readiness test failed
+		// or was never made
+		push := in
+		h := loopHeaderOf(in.Block())
+		starts := []cfgPos{{B: f.Blocks[0], I: 0}}
+		if h != nil {
+			starts = nil
+			for _, s := range loopBodyEntries(h) {
+				starts = append(starts, cfgPos{B: s, I: 0})
+			}
+		}
+		isReadyCall := func(x ssa.Instruction) bool {
+			cc, ok := x.(ssa.CallInstruction)
+			return ok && calleeOf(cc) != nil && calleeOf(cc).Name() == "IsReadyForScheduling"
+		}
+		_, path, found := reachAvoiding(starts, func(x ssa.Instruction) bool { return x == push }, nil, func(from, to *ssa.BasicBlock) bool {
+			// prune: edges on which the filter is off, and edges on which readiness was established
+			good := func(ft Fact) bool {
+				return (!ft.Pol && ft.T.lastField() == "FilterUnready") || (ft.Pol && ft.T.Op == "call" && strings.HasSuffix(ft.T.Name, "IsReadyForScheduling"))
+			}
+			if c.Fx.edgeEstablishes(from, to, good) {
+				return false
+			}
+			// the test moved into a predicate helper: every way the helper gives this answer establishes it
+			return !c.Fx.edgeEstablishesAll(from, to, func(s FactSet) bool { _, ok := hasFact(s, good); return ok })
+		})
+		_ = isReadyCall
+		c.Check(!found, "O11", "MPT", funcKey(f)+": with FilterUnready set only workloads that are ready for scheduling are pushed", instrPos(in), "every path to PushJob establishes !FilterUnready or IsReadyForScheduling()",
+			"a workload can reach PushJob with FilterUnready set and without a successful readiness test ("+pathStr(path)+"): GetTasksToAllocate returns fewer pods than the minimum needs, AllocateJob places them, and a gang is bound below its minimum")
+	}
+	c.Floor("O11", "MPT PushJob in InitializeWithJobs", n, 1)
 }
